@@ -38,6 +38,8 @@ def main():
     args = ap.parse_args()
     pid = args.pid
     sd = os.path.join(args.worktree, 'seeded')
+    if os.path.exists(os.path.join(args.worktree, 'patch.diff')):
+        sd = args.worktree
     patch = os.path.join(sd, 'patch.diff')
     demo = os.path.join(sd, 'demo.py')
     if not (os.path.exists(patch) and os.path.exists(demo)):
